@@ -1,6 +1,7 @@
 //! jbharness — runs the real jbonsai code (path dependency on /repo, current working tree) on
 //! generated cases and writes one protocol line per case for the Lean driver.
 mod c02;
+mod c03;
 mod c05;
 mod c08;
 mod c17;
@@ -42,6 +43,7 @@ fn main() {
     match prop {
         "C01" => engine::gen_c01(seed, thorough),
         "C02" => c02::gen(seed, thorough),
+        "C03" => c03::gen(seed, thorough),
         "C05" => c05::gen_c05(seed, thorough),
         "VOC0" => voc::gen_raw(seed, thorough, false),
         "VOC1" => voc::gen_raw(seed, thorough, true),
